@@ -28,7 +28,9 @@ RULE = (
   "geom_quat, pose of the static plane), margins, gaps, pair margins / gaps and everything MuJoCo derives from them (rbound, "
   "aabb, mesh frames) differ between worlds, every batched Model field with its own random leading size (1..3, world w reads "
   "row w % size), each world judged against its own MuJoCo-compiled variant. Non-trivial: >=1 contact judged by (c) or (d); "
-  "distinct by hash(xml, poses)."
+  "distinct by hash(xml, poses). Plus 'deep' scenes for the 13 closed-form primitive pair types: the same 5 pairs x 3 worlds with random "
+  "(never axis-aligned) rotations and one geom's centre at an inner point of the other (under the plane for plane pairs), where (b),(c),(d) "
+  "are judged at any depth."
 )
 ASSUMPTIONS = [
   "geom poses are taken from mj_kinematics (float64) at the same float32-representable qpos; MJWarp's own float32 poses differ by <=1e-6",
@@ -36,7 +38,8 @@ ASSUMPTIONS = [
   "(c) and (d) are applied to the deepest contact of every pair; to every contact only for pair types handled by closed-form "
   "primitive functions (multi-contact manifolds of polytopes share one distance by construction and are not unique)",
   "height-field pairs: only (a) and (b) are decidable here (non-convex terrain has no support function)",
-  "pairs whose centres coincide (normal undefined) and penetrations deeper than half the smaller geom are not judged by (b),(c)",
+  "pairs whose centres coincide (normal undefined) and penetrations deeper than half the smaller geom are not judged by (b),(c) - "
+  "except in the 'deep' scenes of the closed-form primitive pair types, whose functions have an explicit deep-penetration branch",
   "per-world Model cases: world w of a Model whose batched fields have leading sizes n_f means 'field f = row w % n_f'; the rows are "
   "put_model's own values for NWORLD MuJoCo-compiled MJCF variants (mon/props/_colbatch.py), geom_xpos/geom_xmat of static geoms "
   "(never written by kinematics()) are set per world from mj_kinematics, and Model fields that only describe the inertia "
@@ -61,6 +64,12 @@ def cases(tier, seed):
         k += 1
     for t1, t2 in (("box", "box"), ("capsule", "capsule"), ("plane", "capsule")):
       out.append({"id": f"pair{seed}_{r}_{t1}-{t2}_nonative", "kind": "pair", "pair": [t1, t2], "flags": "nonative", "seed": seed * 1000003 + 300000 + k, "weight": 2})
+      k += 1
+  # deep penetrations of the closed-form primitive pair types (generic rotations, one geom's centre inside the other)
+  for r in range(reps if tier == "quick" else 4):
+    for t1, t2 in sorted(_col.PRIMITIVE_PAIRS) + [("box", "box")]:
+      fs = "nonative" if (t1, t2) == ("box", "box") else "nomulti"
+      out.append({"id": f"deep{seed}_{r}_{t1}-{t2}_{fs}", "kind": "deep", "pair": [t1, t2], "flags": fs, "seed": seed * 1000003 + 500000 + k, "weight": 2})
       k += 1
   ncrowd = 16 if tier == "quick" else 400
   for i in range(ncrowd):
@@ -200,6 +209,13 @@ def check_world(rec, case, mjm, qpos, c, rng, bctx=None):
     o1, o2 = _col.geo_of(mjm, mjd, g1), _col.geo_of(mjm, mjd, g2)
     minsize = min(_minsize(mjm, g1), _minsize(mjm, g2))
     deep = dist < -0.5 * minsize
+    if case["kind"] == "deep" and num == "prim":
+      # deep family: a closed-form primitive function's answer is judged at any depth (the separation along the reported
+      # normal and the two surface points are well defined as long as the centres do not coincide)
+      inside = (_col.sdf(o1, o2.pos) < 0) or (t1 != "plane" and _col.sdf(o2, o1.pos) < 0)
+      if inside:
+        rec.cover("deep:judged_pairs_with_a_centre_inside_the_other_geom:" + pname, 1)
+      deep = False
     # (c) signed separation along the normal
     if t1 == "plane":
       rec.check()
@@ -385,7 +401,7 @@ def run_case(case):
     deep_all.append(dp)
     judged += j
   # (b) metamorphic: move geom2 of every pair by +eps along the pair's deepest normal
-  if case["kind"] in ("pair", "batch"):
+  if case["kind"] in ("pair", "batch", "deep"):
     qs2 = []
     moved = []
     for w, q in enumerate(qs):
@@ -417,7 +433,7 @@ def run_case(case):
           continue
         d2 = float(np.min(np.asarray(cw2[w]["dist"])[g2[key]]))
         rec.check()
-        rec.cover("metamorphic:" + pname, 1)
+        rec.cover(("deep:metamorphic:" if case["kind"] == "deep" else "metamorphic:") + pname, 1)
         ratio = (d2 - dist) / step
         rec.worst("metamorphic_slope_error", abs(ratio - 1) / 0.3 / 30 * 30)
         minsize = min(_minsize(mjms[w], key[0]), _minsize(mjms[w], key[1]))
@@ -428,7 +444,7 @@ def run_case(case):
         elif ratio < -0.5 and dist > -0.5 * minsize and t1 != "hfield" and mtag == "" and not (-1.3 <= ratio <= -0.7) and _numclass(t1, t2, case["flags"]) == "ccd":
           # not a reversed normal (that gives slope -1): the convex solver's distance jumps under a 1 mm move
           rec.viol("dist-discontinuous:ccd", f"world {w} geoms {key} {pname}: moving geom2 by {step:.4g} along the reported normal changed the deepest dist from {dist:.6g} to {d2:.6g} (slope {ratio:.3g})")
-        elif ratio < -0.5 and dist > -0.5 * minsize:
+        elif ratio < -0.5 and (dist > -0.5 * minsize or (case["kind"] == "deep" and _numclass(t1, t2, case["flags"]) == "prim")):
           rec.viol(
             "capsule-capsule:parallel-axes" if mtag == ":parallel-axes" else f"normal-direction:{'hfield' if t1 == 'hfield' else pname}",
             f"world {w} geoms {key}: moving geom2 by {step:.4g} along the reported normal {n} changed the pair's deepest dist from {dist:.6g} to {d2:.6g} "
@@ -460,6 +476,13 @@ def requirements(agg, tier):
   nocf = [p for p in cf if cov.get("closed_form:" + p, 0) < 5]
   if nocf:
     unmet.append(f"closed-form distance compared on fewer than 5 pairs of types: {nocf}")
+  dp = [f"{a}-{b}" for a, b in sorted(_col.PRIMITIVE_PAIRS) + [("box", "box")]]
+  nodeep = [p for p in dp if cov.get("deep:judged_pairs_with_a_centre_inside_the_other_geom:" + p, 0) < (5 if tier == "quick" else 20)]
+  if nodeep:
+    unmet.append(f"deep-penetration family: too few judged pairs with one geom's centre inside the other for types: {nodeep}")
+  nodeepm = [p for p in dp if cov.get("deep:metamorphic:" + p, 0) < 3]
+  if nodeepm:
+    unmet.append(f"deep-penetration family: normal-direction (metamorphic) test ran on too few pairs of types: {nodeepm}")
   if agg["distinct"] < 30:
     unmet.append("fewer than 30 distinct non-trivial cases")
   # per-world Model fields: the family says nothing unless pairs were judged in worlds whose rows differ from world 0
